@@ -405,6 +405,15 @@ impl<'a> BlobRef<'a> {
         let mut backtrack_data_idx = 0;
         let mut backtrack_pattern_idx = 0;
         let mut in_escape = false;
+        // Matching is by characters: the position after the UTF-8 character that starts at `i`
+        // (its lead byte and the continuation bytes 0x80..=0xBF that follow)
+        let next_char = |i: usize| {
+            let mut j = i + 1;
+            while j < data.len() && (data[j] & 0xC0) == 0x80 {
+                j += 1;
+            }
+            j
+        };
 
         while data_idx < data.len() {
             if pattern_idx < pattern.len() {
@@ -415,7 +424,7 @@ impl<'a> BlobRef<'a> {
                     if data[data_idx] != pattern_char {
                         // No match, try backtracking if we have a % to expand
                         if backtrack_pattern_idx > 0 {
-                            backtrack_data_idx += 1;
+                            backtrack_data_idx = next_char(backtrack_data_idx);
                             data_idx = backtrack_data_idx;
                             pattern_idx = backtrack_pattern_idx;
                             // the pattern is read again from the byte after the %: that byte is not escaped
@@ -446,8 +455,8 @@ impl<'a> BlobRef<'a> {
                         continue;
                     }
                     b'_' => {
-                        // _ matches any single character
-                        data_idx += 1;
+                        // _ matches any single character (all its bytes)
+                        data_idx = next_char(data_idx);
                         pattern_idx += 1;
                         continue;
                     }
@@ -456,7 +465,7 @@ impl<'a> BlobRef<'a> {
                         if data[data_idx] != pattern_char {
                             // No match, try backtracking if we have a % to expand
                             if backtrack_pattern_idx > 0 {
-                                backtrack_data_idx += 1;
+                                backtrack_data_idx = next_char(backtrack_data_idx);
                                 data_idx = backtrack_data_idx;
                                 pattern_idx = backtrack_pattern_idx;
                                 continue;
@@ -469,7 +478,7 @@ impl<'a> BlobRef<'a> {
                 }
             } else if backtrack_pattern_idx > 0 {
                 // Pattern exhausted but we have a % to expand
-                backtrack_data_idx += 1;
+                backtrack_data_idx = next_char(backtrack_data_idx);
                 data_idx = backtrack_data_idx;
                 pattern_idx = backtrack_pattern_idx;
             } else {
